@@ -4,6 +4,8 @@
 From V.model Require Import Base Deb822Lex Deb822Parse.
 From V.proofs Require Import Deb822LexP Deb822ParseP SourceTablesP.
 From V.gen Require Import Classes_gen.
+From V.model Require ByteLex.
+From V.proofs Require ByteLexP.
 
 (* The tolerant reader returns (never Panic, never OutOfFuel) a tree whose text is the input;
    the strict reader succeeds with that same tree exactly when the tolerant one reports no
@@ -58,6 +60,21 @@ Check C01_source_tables : classes_recognised = true /\
   map kind_code [KEY; VALUE; COLON; INDENT; NEWLINE; WHITESPACE; COMMENT; ERROR; ROOT; PARAGRAPH; ENTRY; EMPTY_LINE]
     = deb822_kind_values_src.
 Print Assumptions C01_source_tables.
+
+(* The same at the BYTE level (model/ByteLex.v: every slice of lex_ at a byte offset, Panic off a
+   character boundary): the lexer returns, for every input, the char-level token list — so the
+   partition above is a partition of the input's bytes at character boundaries. *)
+Theorem C01_lex_partition_bytes : forall sol s, exists ts,
+  ByteLex.bytelex_ sol s = Ok ts /\ lex_ sol s = Ok ts /\
+  concat (map snd ts) = s /\ Forall (fun t => snd t <> []) ts.
+Proof.
+  intros sol s. destruct (ByteLexP.bytelex_safe sol s) as (ts & E & El). exists ts.
+  split; [exact E|]. split; [exact El|]. exact (lex_partition sol s ts El).
+Qed.
+Check C01_lex_partition_bytes : forall sol s, exists ts,
+  ByteLex.bytelex_ sol s = Ok ts /\ lex_ sol s = Ok ts /\
+  concat (map snd ts) = s /\ Forall (fun t => snd t <> []) ts.
+Print Assumptions C01_lex_partition_bytes.
 
 (* Non-vacuity: a malformed, CR/LF-mixed, non-ASCII input with errors; a clean one without. *)
 Example C01_ex_errors :
